@@ -62,7 +62,7 @@ _MORE = {
             "(every labelled node gets the measurement of its own mask for every requested active key, nothing else changes). Numeric formulas: assumed skimage model + native oracle.",
             "contract-based deductive verification with uninterpreted measurements (congruence schema) + native numeric oracle"),
     "C09": ("Invariant Q (stored iou = IOU(mask of source in its frame, mask of target in its frame)) preserved by every primitive and six user actions; EdgeAnnotator.update "
-            "proved for AddEdge and UpdateNodeSeg. Bulk path and numeric value: native oracle.", "contract-based deductive verification with uninterpreted IoU + native numeric oracle"),
+            "proved for AddEdge and UpdateNodeSeg; the bulk path (EdgeAnnotator.compute with _iou_update, incl. edges that skip frames) proved for every number of frames, nodes and edges. _compute_ious body and numeric value: assumed contract + native oracle.", "contract-based deductive verification with uninterpreted IoU + native numeric oracle"),
     "C10": ("Protection of time and every annotator key by UpdateNodeAttrs (raises-iff, enabled or not) and 'only active keys are written' by the annotators' update() proved. Switching proved for key lists of "
             "every length: (de)activation sets exactly the given flags, an unknown key raises KeyError with tables and FeatureDict unchanged, enable/disable add/remove exactly the given keys to/from the FeatureDict and request "
             "the bulk computation once iff recompute. "
